@@ -116,7 +116,15 @@ impl Range {
                     return Err(error)
                 }
                 let num_usize : u64 = boxed_parse.unwrap();
-                range.start = filelength - num_usize;
+                let boxed_start = filelength.checked_sub(num_usize);
+                if boxed_start.is_none() {
+                    let error = Error {
+                        status_code_reason_phrase: STATUS_CODE_REASON_PHRASE.n416_range_not_satisfiable,
+                        message: Range::ERROR_START_IS_BIGGER_THAN_FILESIZE_CONTENT_RANGE.to_string()
+                    };
+                    return Err(error)
+                }
+                range.start = boxed_start.unwrap();
                 range.end = filelength;
             }
 
